@@ -262,6 +262,10 @@ def traits_witness(chk):
         chk.analysis_broken("W-TRAITS: only %d char_traits obligations" % len(tu.obl))
 
 
+META_EXTRA = 'NULFREE; pointer-formation obligations and counting-loop reachability in BOUND; W-TRAITS (char_traits vs std::char_traits at boundary characters).'
+META = (META[0] + " " + META_EXTRA, META[1])
+
+
 def run(chk, tier):
     db = D.load("checks")
     plain = D.load("plain")
